@@ -37,7 +37,22 @@ def n_form(rng, N, n_from, allow_none=True):
         forms.append("one")
     if allow_none and n_from // 2 == N:
         forms += ["None", "None"]
+    # fractions whose product with the number of candidates is (nearly) an integer, in the
+    # caller's own number type: an exact rational, a single-precision numpy scalar, a plain
+    # float (each only where the documented int(n * fraction) gives exactly N)
+    if 0 < N <= n_from:
+        forms.append("fraction")
+        if int(n_from * np.float32(N / n_from)) == N:
+            forms.append("f32")
+        if int(n_from * (N / n_from)) == N:
+            forms.append("edge")
     c = rng.choice(forms)
+    if c == "fraction":
+        return {"$fraction": [N, n_from]}
+    if c == "f32":
+        return {"$npfloat": N / n_from, "dtype": "float32"}
+    if c == "edge":
+        return N / n_from
     if c == "int":
         if rng.random() < 0.12:
             return {"$npint": N, "dtype": rng.choice(["int64", "int32", "intp"])}  # numpy integer scalar
@@ -81,6 +96,11 @@ def env_fault(rng, fam, params, kinds=None):
         env["rng"] = {"seed": _seed(rng)}
     if "stderr" in kinds and params.get("progress_bar") and rng.random() < 0.6:
         env["stderr"] = {"mode": rng.choice(["eio", "closed", "epipe", "enospc", "none"]), "at": rng.randint(1, 4)}
+        if rng.random() < 0.6:
+            # slow steps: tqdm's redraw timer (simulated) elapses at (almost) every step, so
+            # the bar is redrawn - and the stream fault lands - in the middle of the search
+            env["stderr"]["step_dt"] = rng.choice([0.06, 0.25, 0.25, 5.0])
+            env["stderr"]["at"] = rng.randint(1, 8)
     return env or None
 
 
@@ -453,6 +473,21 @@ def gen_c06(rng, idx, tier, faults):
     for o in ops:
         if wf and o["op"] == "FIT" and o.get("warm"):
             o["warm_form"] = wf  # the same form in every lane
+    names = []
+    for o in ops:
+        if o.get("obj") and o["obj"] not in names:
+            names.append(o["obj"])
+    if 2 <= len(names) <= 4 and all(o.get("obj") for o in ops) and rng.random() < 0.4:
+        # the objects of the lanes live in one process and are used alternately: the
+        # operations of the lanes are interleaved (each lane keeps its own order), so state
+        # shared between objects of the class - module-level pools, class attributes - is
+        # overwritten by another object between two fits of a chain
+        queues = {n: [o for o in ops if o["obj"] == n] for n in names}
+        merged = []
+        while any(queues.values()):
+            n = rng.choice([k for k, q in queues.items() if q])
+            merged.append(queues[n].pop(0))
+        ops = merged
     return {"heap": heap, "ops": ops}
 
 
@@ -474,6 +509,8 @@ def _c08_object(rng, o, heap, faults, exhaustive=None):
     xn, yn = f"X{o}", None
     if not exhaustive and rng.random() < 0.12:
         xs["cast"] = "float32"  # the caller's single-precision data (kept in float32 by the library)
+    if not exhaustive and rng.random() < 0.15:
+        xs["storage"] = rng.choice(["F", "view", "readonly"])  # the caller's memory layout
     heap[xn] = xs
     if info["y"] == "req" or rng.random() < 0.4:
         yn = f"y{o}"
@@ -527,6 +564,14 @@ def gen_c08(rng, idx, tier, faults):
             t = rng.choice(["absolute", "relative", "relative"])
             q["score_threshold"] = {"$unreached": rng.uniform(0.5, 0.95), "type": t, "at_construction": True}
             q["score_threshold_type"] = t
+        cur_thr = [q["score_threshold"]["$unreached"] if "score_threshold" in q else None]
+        must_lower = False
+        if "score_threshold" in q and len(sched) > 1 and rng.random() < 0.4:
+            # ... a threshold that only the FIRST fit of the chain misses (a fraction of the
+            # smallest score among its own steps; later steps may score below it) and that the
+            # caller lowers, below every score of the whole search, before continuing
+            q["score_threshold"]["upto"] = sched[0]
+            must_lower = True
         seq = [{"op": "NEW", "obj": name, "cls": cls, "params": q, "final": final, "X": xn, "y": yn}]
         mk_env = (lambda: env_fault(rng, fam, p, ["clock", "arpack", "rng"])) if faults else (lambda: quiet_env(rng, fam))
         moved = False
@@ -534,6 +579,11 @@ def gen_c08(rng, idx, tier, faults):
             if si > 0:
                 seq.append({"op": "SET", "obj": name, "params": {"n_to_select": n_form(rng, s, n_from)}})
                 r = rng.random()
+                if must_lower and si == 1:
+                    r = 2.0
+                    cur_thr[0] = rng.uniform(0.05, 0.8)
+                    seq.append({"op": "SET", "obj": name, "params": {"score_threshold": {
+                        "$unreached": cur_thr[0], "type": q["score_threshold_type"], "at_construction": True}}})
                 if r < 0.15:
                     seq.append({"op": "RESTART", "obj": name, "mode": rng.choice(["pickle", "deepcopy"])})
                 elif r < 0.35 and "score_threshold" not in q:
@@ -550,6 +600,13 @@ def gen_c08(rng, idx, tier, faults):
                     )
                 elif r < 0.42 and "score_threshold" not in q:
                     seq.append({"op": "SET", "obj": name, "params": {"score_threshold": None}})
+                elif r < 0.45 and isinstance(q.get("score_threshold"), dict) and q["score_threshold"].get("at_construction"):
+                    # the threshold fixed at construction (not reached so far) is lowered
+                    # before the search is continued: still unreached, and the continuation
+                    # must honour the value the estimator has now
+                    cur_thr[0] = cur_thr[0] * rng.uniform(0.05, 0.8)
+                    seq.append({"op": "SET", "obj": name, "params": {"score_threshold": {
+                        "$unreached": cur_thr[0], "type": q["score_threshold_type"], "at_construction": True}}})
             xuse = xn if not moved else xn + "c"
             if si > 0 and not moved and rng.random() < 0.15:
                 xuse = xn + "c"
@@ -558,6 +615,9 @@ def gen_c08(rng, idx, tier, faults):
                 if rng.random() < 0.5:
                     # ... because the caller has meanwhile reused the buffer it fitted on
                     moved = True
+                    # the buffer of the earlier fits in the caller's own layout (a column-major
+                    # array passes validation and np.asfortranarray without a copy)
+                    heap[xn]["storage"] = rng.choice(["C", "F", "F", "view"])
                     rec = {k: v for k, v in heap[xn].items() if k != "storage"}
                     rec["seed"] = _seed(rng)
                     seq.append({"op": "MUTATE", "h": xn, "recipe": rec})
